@@ -603,6 +603,7 @@ IdsOf(fam) ==
     [] fam = "B" -> {<<"B", d, drv>> : d \in DOMAIN DTname, drv \in {"same", "fixed", "absent"}}
     [] fam = "E" -> {<<"E", n>> : n \in 1 .. 5}
     [] fam = "K" -> {<<"K", "sc">>, <<"K", "bl">>} \cup {<<"Kc", d>> : d \in DOMAIN ConstCase}
+    [] fam = "K0" -> {<<"K", "sc">>, <<"Kc", "i0">>, <<"Kc", "e0">>, <<"Kc", "f5">>}
     [] fam = "C1" -> {<<"C", "f", "minmax", "h0", "none", "X">>, <<"C", "f", "minmax", "h1", "none", "X">>,
                       <<"C", "f", "limits", "h2", "none", "X">>,
                       <<"C", "f", "minmax", "h2", "none", "M">>, <<"C", "f", "limits", "h1", "none", "M">>,
